@@ -118,6 +118,7 @@ pub trait Inst {
     fn acc(&self, which: &str) -> String;
     fn guts(&mut self, field: &str) -> String;
     fn cfg(&mut self) -> String;
+    fn poke(&mut self);
     fn reset(self: Box<Self>) -> Box<dyn Inst>;
     fn clone_box(&self) -> Box<dyn Inst>;
     fn gutsrt(&self) -> Box<dyn Inst>;
@@ -142,6 +143,9 @@ pub trait FK: Clone + 'static {
     fn cfg_(&mut self) -> String {
         "-".to_string()
     }
+    /// borrow the state through `StateMut::state_mut` and do nothing with it: the only way to look at a live filter's
+    /// state; it must leave the filter exactly as it was
+    fn poke_(&mut self) {}
 }
 
 impl<K: FK> Inst for K {
@@ -156,6 +160,9 @@ impl<K: FK> Inst for K {
     }
     fn cfg(&mut self) -> String {
         self.cfg_()
+    }
+    fn poke(&mut self) {
+        self.poke_()
     }
     fn reset(self: Box<Self>) -> Box<dyn Inst> {
         Box::new((*self).rst())
@@ -202,6 +209,19 @@ macro_rules! fk_common {
 }
 
 macro_rules! fk {
+    ([$($gen:tt)*] $ty:ty, $in:ty => $out:ty { $($extra:tt)* }) => {
+        impl<$($gen)*> IO for $ty { type In = $in; type Out = $out; }
+        impl<$($gen)*> FK for $ty {
+            fk_common!($in);
+            fn poke_(&mut self) {
+                let _ = unsafe { StateMut::state_mut(self) };
+            }
+            $($extra)*
+        }
+    };
+}
+/// (a filter without state has no `StateMut`)
+macro_rules! fk_stateless {
     ([$($gen:tt)*] $ty:ty, $in:ty => $out:ty { $($extra:tt)* }) => {
         impl<$($gen)*> IO for $ty { type In = $in; type Out = $out; }
         impl<$($gen)*> FK for $ty {
@@ -454,7 +474,7 @@ fk!([const N: usize] Synthesize<Q, N>, Decomposition<Q> => Q {
 
 macro_rules! classify_fk {
     ($t:ty) => {
-        fk!([] Threshold<$t, Q>, $t => Q {
+        fk_stateless!([] Threshold<$t, Q>, $t => Q {
             fn cfg_(&mut self) -> String {
                 cfg_both!(self, c => format!("{} {}", c.threshold.r(), render_list(c.outputs.iter())))
             }
@@ -572,6 +592,9 @@ macro_rules! fk_bits {
             }
             fn gutsrt_(&self) -> Self {
                 FromGuts::from_guts(IntoGuts::into_guts(self.clone()))
+            }
+            fn poke_(&mut self) {
+                let _ = unsafe { StateMut::state_mut(self) };
             }
             fn cfg_(&mut self) -> String {
                 let $s = &*self;
@@ -1121,6 +1144,25 @@ pub fn inject(kind: &str, kv: &KV) -> Box<dyn Inst> {
                 median: kv_oq(kv, "median"),
             };
             inj_cs!(kv, Emed::<Q>, cfg, st)
+        }
+        // the wavelet filters assembled by hand from two convolutions that are themselves built with `from_guts` (any pair
+        // of kernels, tap rings at any fill level)
+        "analyze" | "synthesize" => {
+            let (lo, hi) = (kv_qs(kv, "low"), kv_qs(kv, "high"));
+            assert_eq!(lo.len(), hi.len(), "harness: kernels of different length");
+            with_n!(lo.len(), N => {
+                let conv = |c: Vec<Q>, taps: Vec<Q>| {
+                    let mut ring: CircularBuffer<N, Q> = CircularBuffer::default();
+                    for t in taps { ring.push_back(t); }
+                    Convolve::<Q, N>::from_guts((ConvolveConfig { coefficients: arr(c) }, signalo_filters::convolve::State { taps: ring }))
+                };
+                let (low_pass, high_pass) = (conv(lo, kv_qs(kv, "ltaps")), conv(hi, kv_qs(kv, "htaps")));
+                if kind == "analyze" {
+                    Box::new(Analyze::<Q, N>::from_guts(signalo_filters::wavelet::analyze::State { low_pass, high_pass })) as Box<dyn Inst>
+                } else {
+                    Box::new(Synthesize::<Q, N>::from_guts(signalo_filters::wavelet::synthesize::State { low_pass, high_pass })) as Box<dyn Inst>
+                }
+            })
         }
         "emeanvar" => {
             // the two inner averages carry their own copy of the width (`mw`, `vw`; default: the filter's)
